@@ -183,6 +183,37 @@ def sweep(binary, scen, mode, kinds, batch, verdict, follow=None, ks=None, ref_p
     return K, nruns
 
 
+def planned_runs(binary, scen, steps_list, batch, verdict, sigbase=None, label=""):
+    """Each element of steps_list is a list of steps [(mode, plan) | ("dev", newtree) | ("lock", value)]
+    executed on a fresh copy of the scenario."""
+    n = 0
+    for steps in steps_list:
+        h = scen.make(binary, label)
+        rr = []
+        for st in steps:
+            if st[0] == "dev":
+                h.dev(st[1])
+            elif st[0] == "lock":
+                h.dev_set_lock(st[1])
+            else:
+                r = h.run(st[0], plan=st[1])
+                rr.append(r.exit_class)
+        sig = {"mode": steps[0][0], "fault": "plan" if any(len(s) > 1 and s[0] in ("edit", "check") and s[1] for s in steps) else "none",
+               "plan": ";".join(s[1] for s in steps if s[0] in ("edit", "check") and s[1]),
+               "structured": bool(scen.kw["structured"])}
+        if sigbase:
+            sig.update(sigbase)
+        meta = {"scenario": scen.name, "scenario_desc": scen.describe(),
+                "steps": [list(s) if s[0] in ("edit", "check", "lock") else ["dev", s[1]] for s in steps], "sig": sig}
+        batch.add(h, meta)
+        verdict.evaluated((scen.name, json.dumps(meta["steps"], sort_keys=True, default=str)))
+        verdict.sample({"scenario": scen.name, "steps": [list(s) if s[0] != "dev" else ["dev", "..."] for s in steps],
+                        "exits": rr})
+        h.close()
+        n += 1
+    return n
+
+
 # ---------------------------------------------------------------------------------------------
 # standard scenario families
 
